@@ -234,6 +234,49 @@ func lexRandom(o *out, r *rng, n int, direct bool) {
 	}
 }
 
+// the token ring the parser sits on (bufScanner): any walk of Scan and Unscan with at most three tokens pushed back
+// sees the tokens of the text in order - a pushed-back token comes back with its own position and literal, none is
+// skipped, none comes twice.  The oracle is a cursor into the token list of a fresh Scanner.
+func c05Ring(o *out, text string, r *rng) {
+	if strings.ContainsRune(text, 0) {
+		return
+	}
+	recs, _, term := scanAll(text)
+	if !term || len(recs) == 0 {
+		return
+	}
+	o.count("ring-walk")
+	p := influxql.NewParser(strings.NewReader(text))
+	cur, depth := 0, 0
+	var ops []string
+	steps := 4 + r.intn(3*len(recs)+4)
+	for i := 0; i < steps; i++ {
+		if depth < 3 && cur > 0 && (depth == 0 && r.chance(1, 3) || depth > 0 && r.chance(1, 2)) {
+			p.Unscan()
+			cur--
+			depth++
+			ops = append(ops, "U")
+			continue
+		}
+		if cur >= len(recs) {
+			break
+		}
+		tok, pos, lit := p.Scan()
+		ops = append(ops, "S")
+		want := recs[cur]
+		o.checked()
+		if tok != want.tok || pos != want.pos || lit != want.lit {
+			o.fail("", fmt.Sprintf("Parser.Scan/Unscan walk %s on %q: step %d returns %s %q at %d:%d, token %d of the text is %s %q at %d:%d", strings.Join(ops, ""), text, i, tok, lit, pos.Line, pos.Char,
+				cur, want.tok, want.lit, want.pos.Line, want.pos.Char), map[string]interface{}{"op": "ring_walk", "text": text})
+			return
+		}
+		cur++
+		if depth > 0 {
+			depth--
+		}
+	}
+}
+
 func propC05(o *out, r *rng, thorough bool) {
 	maxLen := 3
 	n := 6000
@@ -248,6 +291,31 @@ func propC05(o *out, r *rng, thorough bool) {
 	for _, w := range []string{"x 'a'", "x", "a = 'b'", "\"x\"", "x\n", "f /* c"} {
 		lexOne(o, w, "witness", true)
 	}
+	// walks over the token ring, on statements and on random token soups; every depth of pushback up to three
+	walks := 400
+	if thorough {
+		walks = 40000
+	}
+	for _, w := range []string{"a b c d e f", "SELECT mean(v) FROM m WHERE x > 1 GROUP BY time(1m)", "a,b,c,d", "1 2 3 4 5", "'a' 'b' 'c' 'd'", "CREATE CONTINUOUS QUERY cq ON db BEGIN SELECT count(value) INTO out FROM cpu END"} {
+		for k := 0; k < 20; k++ {
+			c05Ring(o, w, r)
+		}
+	}
+	for i := 0; i < walks; i++ {
+		var b strings.Builder
+		for j := 0; j < 3+r.intn(8); j++ {
+			b.WriteString(pick(r, lexPieces))
+			b.WriteString(pick(r, []string{" ", "", "\n", " "}))
+		}
+		c05Ring(o, b.String(), r)
+	}
 }
 
-func init() { props["C05"] = propC05 }
+func init() {
+	props["C05"] = propC05
+	replayers["ring_walk"] = func(o *out, rp map[string]interface{}) {
+		for seed := uint64(1); seed < 200; seed++ {
+			c05Ring(o, rpStr(rp, "text"), newRng(seed))
+		}
+	}
+}
